@@ -19,7 +19,7 @@ from ..pointsto import PointsTo, SPEC
 from ..report import Inst
 
 RULE = 'R6'
-PROPS = ('C03', 'C16')
+PROPS = ('C03', 'C16', 'C01', 'C02')
 FIXTURE = os.path.join(os.path.dirname(os.path.dirname(os.path.abspath(__file__))), 'fixtures', 'r06')
 
 
